@@ -6,6 +6,7 @@ From GM Require Import Base.Prelude Base.Outcome Codec.Packets Codec.Settings En
 From RecordUpdate Require Import RecordSet.
 Import RecordSetNotations.
 Open Scope N_scope.
+#[local] Set Default Proof Using "Type".
 
 (* the four component types are implicit in the engine functions, locally to this file *)
 #[local] Arguments init {enc dec} _ {ores ires} _ _.
